@@ -41,7 +41,7 @@ theorem findAllFs_nodup (K : Consts) (ts : TypeSystem) (o : Opts) (hp : Heap) (n
 theorem findAllFs_heap_frame (K : Consts) (ts : TypeSystem) (o : Opts) (hp : Heap) (nx : Int)
     (seeds : List Nat) (s' : St) (h : findAllFs K ts o hp nx seeds = .ok s') :
     s'.heap.length = hp.length ∧
-    ∀ a ob, hp[a]? = some ob → ∃ ob', s'.heap[a]? = some ob' ∧ ob'.ty = ob.ty ∧ ob'.slots = ob.slots ∧
+    ∀ (a : Nat) (ob : Obj), hp[a]? = some ob → ∃ ob' : Obj, s'.heap[a]? = some ob' ∧ ob'.ty = ob.ty ∧ ob'.slots = ob.slots ∧
       (ob.xid ≠ none → ob'.xid = ob.xid) :=
   findAllFs_heap_frame_aux K ts o hp nx seeds s' h
 
@@ -61,7 +61,17 @@ def demoHeap : Heap :=
     { ty := "x.N", ts := 0, xid := none, slots := [("l", .ref 3), ("r", .ref 0)] } ]
 
 example : (findAllFs Gen.consts demoTS {} demoHeap 1 [0]).toOption.map (fun s => (s.pops, s.pushes, s.allFs.length))
-    = some (5, 4, 4) := by decide +kernel
-example : totalOut Gen.consts demoTS {} demoHeap 5 = 6 := by decide +kernel
+    = some (5, 4, 4) := by
+  -- `createFeature` goes through the well-founded `pushInherited`, which the kernel cannot unfold;
+  -- on the childless type `x.N` it equals the kernel-evaluable `createFeatureLeaf`
+  unfold demoTS
+  rw [createType_createFeature2_leaf _ _ _ _ _ _ _ _ _ _ (by decide +kernel) (by decide +kernel)]
+  decide +kernel
+example : totalOut Gen.consts demoTS {} demoHeap 5 = 6 := by
+  -- `createFeature` goes through the well-founded `pushInherited`, which the kernel cannot unfold;
+  -- on the childless type `x.N` it equals the kernel-evaluable `createFeatureLeaf`
+  unfold demoTS
+  rw [createType_createFeature2_leaf _ _ _ _ _ _ _ _ _ _ (by decide +kernel) (by decide +kernel)]
+  decide +kernel
 
 end Cassis.Traverse
